@@ -325,6 +325,7 @@ func runC08(e *Engine, r *Report) {
 	ruleSyncUnconditional(e, r)
 	ruleReadyToStream(e, r)
 	ruleOpenSetsOnDiskIndex(e, r)
+	ruleOnDiskCursors(e, r)
 	ruleSnapshotJobExclusion(e, r)
 	ruleApplyIndexAtomic(e, r)
 	ruleJobRegistered(e, r)
